@@ -4,6 +4,7 @@ use crate::core::Check;
 
 pub mod c01;
 pub mod c02;
+pub mod c02_sched;
 pub mod c03;
 pub mod c04;
 pub mod c05;
